@@ -273,7 +273,7 @@ pub fn inst_strategy(kind: Kind) -> BoxedStrategy<Inst> {
     match kind {
         Kind::Real => (
             1usize..7,
-            prop_oneof![Just(RealKind::Sphere), Just(RealKind::ShiftedOutside), Just(RealKind::Slope), Just(RealKind::Plateau), Just(RealKind::Rastrigin)],
+            prop_oneof![2 => Just(RealKind::Sphere), 2 => Just(RealKind::ShiftedOutside), 2 => Just(RealKind::Slope), 2 => Just(RealKind::Plateau), 2 => Just(RealKind::Rastrigin), 3 => Just(RealKind::Infeasible)],
             prop_oneof![Just((-5.0, 5.0)), Just((0.0, 1.0)), Just((3.0, 7.0)), Just((-1.0, 1.0))],
         )
             .prop_map(|(dim, kind, (lo, hi))| Inst::Real { dim, kind, lo, hi })
@@ -290,7 +290,15 @@ pub fn run_spec_strategy(which: Option<usize>, max_iters: u32) -> BoxedStrategy<
         None => (0usize..21).boxed(),
     };
     idx.prop_flat_map(move |i| inst_strategy(kind_of_index(i)).prop_flat_map(move |inst| (tpl_strategy(i, inst.dim()), Just(inst), 0u32..=max_iters, any::<u64>())))
-        .prop_map(|(tpl, inst, iters, seed)| RunSpec { tpl, inst, iters, seed })
+        .prop_map(|(tpl, mut inst, iters, seed)| {
+            // IWO's selection documents infinite objective values as unusable input
+            if let (Tpl::Iwo { .. }, Inst::Real { kind, .. }) = (&tpl, &mut inst) {
+                if *kind == RealKind::Infeasible {
+                    *kind = RealKind::Sphere;
+                }
+            }
+            RunSpec { tpl, inst, iters, seed }
+        })
         .boxed()
 }
 
